@@ -6,8 +6,10 @@ import (
 	"encoding/json"
 	"flag"
 	"fmt"
+	"google.golang.org/protobuf/encoding/protowire"
 	"io"
 	"math"
+	"slices"
 	"time"
 
 	"github.com/gogo/protobuf/proto"
@@ -36,6 +38,8 @@ type HUnixFS struct {
 	HashType   *uint64  `json:"hashtype"`
 	Fanout     *uint64  `json:"fanout"`
 	Mode       *uint32  `json:"mode"`
+	// WideType: a DataType varint beyond 32 bits (no generated enum type can hold it): written by hand
+	WideType *uint64 `json:"widetype"`
 }
 
 type HLink struct {
@@ -63,6 +67,10 @@ type HostileCase struct {
 	Class  string   `json:"class"` // C14: input class of the root
 	NonPB  string   `json:"nonpb"` // C14: a non-dag-pb input instead of blocks
 	Names  []string `json:"names"` // keys to look up
+	// Ops restricts the operations exercised (empty = all): a DAG whose shards share children is small as a
+	// block set but astronomically large as a tree, so only the operations that are linear in the block set
+	// (Length, which is memoised per shard, and lookups) can be demanded to finish
+	Ops []string `json:"ops"`
 }
 
 func rawCid(b []byte, codec uint64) cid.Cid {
@@ -87,6 +95,12 @@ func (u *HUnixFS) encode() []byte {
 	d.HashType = u.HashType
 	d.Fanout = u.Fanout
 	d.Mode = u.Mode
+	if u.WideType != nil {
+		t := pb.Data_Raw
+		d.Type = &t
+		b, _ := proto.Marshal(d) // starts with the type field 08 00
+		return append(protowire.AppendVarint([]byte{0x08}, *u.WideType), b[2:]...)
+	}
 	b, err := proto.Marshal(d)
 	if err != nil {
 		// required Type absent: marshal by hand without it
@@ -193,10 +207,15 @@ func timed(f func() (string, int, string)) (out string, steps int, info string) 
 		}
 		ch <- rr
 	}()
+	d := 20 * time.Second
+	if hangSeen {
+		d = 2 * time.Second // one runaway call has been reported already; its goroutine may still be burning a core
+	}
 	select {
 	case x := <-ch:
 		return x.out, x.steps, x.info
-	case <-time.After(20 * time.Second):
+	case <-time.After(d):
+		hangSeen = true
 		return "timeout", 0, ""
 	}
 }
@@ -208,9 +227,17 @@ func errOut(err error) string {
 	return "error"
 }
 
-func exerciseNode(n ipld.Node, names []string, budget int) []opResult {
+func exerciseNode(n ipld.Node, names []string, budget int, only ...string) []opResult {
 	var res []opResult
+	stuck := false
 	add := func(op string, f func() (string, int, string)) {
+		if len(only) > 0 && !slices.Contains(only, op) {
+			return
+		}
+		if stuck {
+			return // an earlier call on this node never returned and may hold the node's locks
+		}
+		defer func() { stuck = stuck || res[len(res)-1].Out == "timeout" }()
 		out, steps, info := timed(f)
 		res = append(res, opResult{op, out, steps, info})
 	}
@@ -429,14 +456,14 @@ func runHostileCase(hc *HostileCase, tr *Tr) error {
 			}
 			return "ok"
 		}
-		guard(func() {
+		probe := func() {
 			_, e1 := node.AsBool()
 			_, e2 := node.AsInt()
 			_, e3 := node.AsFloat()
 			_, e4 := node.AsString()
 			_, e5 := node.AsLink()
 			adlRec = M{"asbool": eo(e1), "asint": eo(e2), "asfloat": eo(e3), "asstring": eo(e4), "aslink": eo(e5),
-				"isnull": node.IsNull(), "isabsent": node.IsAbsent(), "len": node.Length(),
+				"isnull": node.IsNull(), "isabsent": node.IsAbsent(), "len": min(node.Length(), 1<<30), // TLC integers are 32-bit
 				"listiter": map[bool]string{true: "nil", false: "non"}[node.ListIterator() == nil]}
 			if node.Kind() != datamodel.Kind_Bytes {
 				// AsBytes on a file reads the whole file; only probe it on the other kinds
@@ -448,16 +475,20 @@ func runHostileCase(hc *HostileCase, tr *Tr) error {
 			_, e7 := node.LookupByIndex(0)
 			adlRec["idx0"] = eo(e7)
 			adlRec["mapiter"] = map[bool]string{true: "nil", false: "non"}[node.MapIterator() == nil]
-		})
+		}
+		if o, _, _ := timed(func() (string, int, string) { probe(); return "value", 0, "" }); o == "timeout" {
+			// one of the generic node methods (Length, on a map) never returned
+			adlRec, res = M{}, "timeout"
+		}
 	}
 	tr.Emit(M{"ev": "reify", "adl": adlRec, "cls": hc.Class, "variant": hc.Open, "res": res, "kind": kind, "subSame": subSame, "reenc": reenc,
 		"e": res, "info": info, "isADL": subSame || reenc || res == "file" || res == "dir" || res == "hamtdir" || res == "linkmap"})
-	if out != "value" || node == nil {
+	if out != "value" || node == nil || res == "timeout" {
 		return nil
 	}
 	nblocks := len(hc.Blocks) + 1
 	budget := 50*nblocks + 200
-	for _, r := range exerciseNode(node, hc.Names, budget) {
+	for _, r := range exerciseNode(node, hc.Names, budget, hc.Ops...) {
 		tr.Emit(M{"ev": "hop", "op": r.Op, "out": r.Out, "e": r.Out, "steps": r.Steps, "budget": budget, "info": r.Info})
 	}
 	return nil
@@ -492,6 +523,7 @@ func init() {
 				cases = mutateTriples("hamt", baseHamt, hamtMutators())
 			} else {
 				cases = mutateAll("hamt", baseHamt, hamtMutators(), *pairs)
+				cases = append(cases, sharedChildCases()...)
 			}
 		case "file":
 			if *triples {
